@@ -30,7 +30,8 @@ theorem store_ok_of_good {W : Nat} (hW : 0 < W) (fx : Fixes) {c : List Block} {n
   have h1 : ¬ (expectedNext n.disk).1 ≠ b.num := by rw [hen, hn.num]; simp
   have h2 : ¬ (expectedNext n.disk).2 ≠ b.parent := by rw [hen, hn.parent]; simp
   have h3 : ¬ stateRoot n.disk ≠ b.oldRoot := by rw [hg.coh.state, hn.oldRoot]; simp
-  simp only [exec, plan, storePlan, h1, h2, h3, if_false, hmem, hins]
+  have h4 : ¬ b.applied ≠ b.root := by rw [hn.newRoot]; simp
+  simp only [exec, plan, storePlan, h1, h2, h3, h4, if_false, hmem, hins]
 
 /-- … and the node is then at the new height with that block as its head. -/
 theorem store_height_of_good {W : Nat} (hW : 0 < W) (fx : Fixes) {c : List Block} {n : Node} {b : Block}
@@ -43,10 +44,11 @@ theorem store_height_of_good {W : Nat} (hW : 0 < W) (fx : Fixes) {c : List Block
   have h1 : ¬ (expectedNext n.disk).1 ≠ b.num := by rw [hen, hn.num]; simp
   have h2 : ¬ (expectedNext n.disk).2 ≠ b.parent := by rw [hen, hn.parent]; simp
   have h3 : ¬ stateRoot n.disk ≠ b.oldRoot := by rw [hg.coh.state, hn.oldRoot]; simp
+  have h4 : ¬ b.applied ≠ b.root := by rw [hn.newRoot]; simp
   have haux := insert_onlyAux hins
   have hd : (exec W fx n (.store b) .none).1.disk =
       applyBatch (ensureInit W n).disk (blockWrites b ++ ws) := by
-    simp only [exec, plan, storePlan, h1, h2, h3, if_false, hmem, hins, applyCommits,
+    simp only [exec, plan, storePlan, h1, h2, h3, h4, if_false, hmem, hins, applyCommits,
       List.foldl_cons, List.foldl_nil]
   rw [hd]
   constructor
